@@ -1,5 +1,6 @@
-(** Proofs about [PV.Metadata.ValueOwner] (property C09), part 1: the bank primitives, the
-    send restriction, the signer checks. *)
+(** Proofs about [PV.Metadata.ValueOwner] (property C09), part 1: finite maps, the bank primitives
+    (subtract / restrict / add), the composed send restriction, the authz store as threaded through
+    the signer checks, the value-owner signer check. *)
 From Coq Require Import ZArith NArith List Bool Lia.
 From PV Require Import Metadata.ValueOwner.
 Import ListNotations.
@@ -17,6 +18,16 @@ Proof.
   - intros H. exists a. split; [exact H|apply N.eqb_refl].
 Qed.
 
+Lemma mem_false a l : mem a l = false <-> ~ In a l.
+Proof.
+  split.
+  - intros H Hin. apply mem_In in Hin. congruence.
+  - intros H. destruct (mem a l) eqn:E; [|reflexivity]. apply mem_In in E. contradiction.
+Qed.
+
+Lemma mem_cons a b l : mem a (b :: l) = N.eqb a b || mem a l.
+Proof. reflexivity. Qed.
+
 Lemma any_in_spec agents l : any_in agents l = true <-> exists g, In g agents /\ In g l.
 Proof.
   unfold any_in. rewrite existsb_exists. split.
@@ -27,10 +38,46 @@ Qed.
 Lemma is_nil_false {A} (l : list A) : is_nil l = false <-> l <> [].
 Proof. destruct l; cbn; split; congruence. Qed.
 
-(** ** Accessors of updated states *)
-Lemma tok_with_toks s t d : tok (with_toks s t) d = match get t d with Some l => l | None => [] end.
-Proof. reflexivity. Qed.
+Lemma has_dup_false l : has_dup l = false -> NoDup l.
+Proof.
+  induction l as [|a r IH]; cbn [has_dup]; intros H; [constructor|].
+  apply orb_false_elim in H. destruct H as (H1 & H2). constructor; [|apply IH; exact H2].
+  apply mem_false. exact H1.
+Qed.
 
+Lemma NoDup_app_inv {A} (l l' : list A) :
+  NoDup (l ++ l') -> NoDup l /\ NoDup l' /\ forall x, In x l -> ~ In x l'.
+Proof.
+  induction l as [|a r IH]; cbn [app]; intros H.
+  - split; [constructor|]. split; [exact H|]. intros x [].
+  - inversion H as [|x y Hx Hy]; subst. destruct (IH Hy) as (H1 & H2 & H3).
+    split; [constructor; [|exact H1]|split; [exact H2|]].
+    + intros Hin. apply Hx. apply in_or_app. left. exact Hin.
+    + intros x [<-|Hin]; [|apply H3; exact Hin]. intros Hin. apply Hx. apply in_or_app. right. exact Hin.
+Qed.
+
+Lemma dedup_incl l : forall x, In x (dedup l) -> In x l.
+Proof.
+  induction l as [|a r IH]; cbn [dedup]; intros x; [intros []|].
+  intros [<-|H]; [left; reflexivity|]. apply filter_In in H. right. apply IH. apply H.
+Qed.
+
+Lemma dedup_complete l : forall x, In x l -> In x (dedup l).
+Proof.
+  induction l as [|a r IH]; cbn [dedup]; intros x; [intros []|].
+  intros [<-|H]; [left; reflexivity|].
+  destruct (N.eqb_spec a x) as [->|Hne]; [left; reflexivity|].
+  right. apply filter_In. split; [apply IH; exact H|]. apply negb_true_iff. apply N.eqb_neq. exact Hne.
+Qed.
+
+Lemma dedup_NoDup l : NoDup (dedup l).
+Proof.
+  induction l as [|a r IH]; cbn [dedup]; [constructor|]. constructor.
+  - intros H. apply filter_In in H. destruct H as (_ & H). rewrite N.eqb_refl in H. discriminate.
+  - apply NoDup_filter. exact IH.
+Qed.
+
+(** ** Accessors of updated states *)
 Lemma tok_put s d l d' :
   tok (with_toks s (put (toks s) d l)) d' = if N.eqb d' d then l else tok s d'.
 Proof. unfold tok at 1. cbn [toks with_toks]. rewrite get_put. destruct (N.eqb d' d); reflexivity. Qed.
@@ -46,28 +93,50 @@ Proof.
   destruct (N.eqb d' d); [destruct v|]; reflexivity.
 Qed.
 
-(** Everything but the token balances is the same. *)
-Definition same_but_toks (s s' : state) : Prop :=
+(** Everything but the token balances and the quarantine records is the same. *)
+Definition frame (s s' : state) : Prop :=
   scopes s' = scopes s /\ specs s' = specs s /\ sups s' = sups s /\ markers s' = markers s /\
-  grants s' = grants s /\ wasm s' = wasm s /\ blocked s' = blocked s.
+  grants s' = grants s /\ wasm s' = wasm s /\ blocked s' = blocked s /\ sanctioned s' = sanctioned s /\
+  qopt s' = qopt s /\ qauto s' = qauto s /\ now s' = now s.
 
-Lemma same_but_toks_refl s : same_but_toks s s.
+Lemma frame_refl s : frame s s.
 Proof. repeat split. Qed.
 
-Lemma same_but_toks_trans a b c : same_but_toks a b -> same_but_toks b c -> same_but_toks a c.
+Lemma frame_trans a b c : frame a b -> frame b c -> frame a c.
 Proof.
-  intros (H1 & H2 & H3 & H4 & H5 & H6 & H7) (G1 & G2 & G3 & G4 & G5 & G6 & G7).
+  intros (H1 & H2 & H3 & H4 & H5 & H6 & H7 & H8 & H9 & H10 & H11)
+         (G1 & G2 & G3 & G4 & G5 & G6 & G7 & G8 & G9 & G10 & G11).
   repeat split; congruence.
 Qed.
 
-Lemma same_but_toks_with s t : same_but_toks s (with_toks s t).
+Lemma frame_with_toks s t : frame s (with_toks s t).
 Proof. repeat split. Qed.
+Lemma frame_with_qrecs s t : frame s (with_qrecs s t).
+Proof. repeat split. Qed.
+
+Lemma frame_markers s s' : frame s s' -> markers s' = markers s.
+Proof. intros H. apply H. Qed.
+Lemma frame_sups s s' : frame s s' -> sups s' = sups s.
+Proof. intros H. apply H. Qed.
+Lemma frame_scopes s s' : frame s s' -> scopes s' = scopes s.
+Proof. intros H. apply H. Qed.
+Lemma frame_sanctioned s s' : frame s s' -> sanctioned s' = sanctioned s.
+Proof. intros H. apply H. Qed.
+
+Lemma frame_qdest s s' f t : frame s s' -> qdest s' f t = qdest s f t.
+Proof.
+  intros (_ & _ & _ & _ & _ & _ & _ & _ & Ho & Ha & _).
+  unfold qdest, quarantines, is_auto. rewrite Ho, Ha. reflexivity.
+Qed.
 
 Lemma sup_same s s' d : sups s' = sups s -> sup s' d = sup s d.
 Proof. intros H. unfold sup. rewrite H. reflexivity. Qed.
 
 Lemma scope_of_same s s' d : scopes s' = scopes s -> scope_of s' d = scope_of s d.
 Proof. intros H. unfold scope_of. rewrite H. reflexivity. Qed.
+
+Lemma marker_of_same s s' a : markers s' = markers s -> marker_of s' a = marker_of s a.
+Proof. intros H. unfold marker_of. rewrite H. reflexivity. Qed.
 
 (** ** Holder lists *)
 Lemma bal_of_single a v b : bal_of [(a, v)] b = if N.eqb a b then v else 0.
@@ -79,82 +148,82 @@ Proof. unfold set_bal. cbn. rewrite N.eqb_refl. reflexivity. Qed.
 Lemma set_bal_nil a v : v <> 0 -> set_bal [] a v = [(a, v)].
 Proof. intros H. unfold set_bal. cbn. destruct (Z.eqb_spec v 0); [contradiction|reflexivity]. Qed.
 
-(** ** One unit moving under the bank invariant *)
-Lemma move_inv s from to d amt s' :
-  BankInv s -> 0 < amt -> move s from to d amt = Some s' ->
+(** Weak well-formedness kept while a transfer is under way: every holder list is empty or one
+    account with one unit. *)
+Definition Wk (s : state) : Prop := forall d, tok s d = [] \/ exists h, tok s d = [(h, 1)].
+
+Lemma bank_sub_spec s from d amt s1 :
+  Wk s -> 0 < amt -> bank_sub s from d amt = Some s1 ->
   tok s d = [(from, 1)] /\ amt = 1 /\
-  s' = with_toks (with_toks s (put (toks s) d [])) (put (put (toks s) d []) d [(to, 1)]).
+  (forall d', tok s1 d' = if N.eqb d' d then [] else tok s d') /\ frame s s1 /\ qrecs s1 = qrecs s.
 Proof.
-  intros HB Hamt. unfold move, bank_sub.
-  destruct (HB d) as [(Hs & Ht)|(Hs & h & Ht)]; rewrite Ht.
-  - cbn. destruct (Z.ltb_spec 0 amt); [discriminate|lia].
+  intros HW Hamt. unfold bank_sub.
+  destruct (HW d) as [Ht|(h & Ht)]; rewrite Ht.
+  - cbn [bal_of find]. destruct (Z.ltb_spec 0 amt); [discriminate|lia].
   - rewrite bal_of_single. destruct (N.eqb_spec h from) as [->|Hne].
     + destruct (Z.ltb_spec 1 amt); [discriminate|]. assert (amt = 1) by lia. subst amt.
       intros [= <-]. split; [reflexivity|]. split; [reflexivity|].
-      unfold bank_add. rewrite tok_put, N.eqb_refl. cbn [Z.sub Z.pos_sub].
-      replace (1 - 1) with 0 by reflexivity. rewrite set_bal_single_zero.
-      cbn [bal_of find]. rewrite set_bal_nil by discriminate. reflexivity.
+      split; [|split; [apply frame_with_toks|reflexivity]].
+      intros d'. rewrite tok_put. replace (1 - 1) with 0 by reflexivity.
+      rewrite set_bal_single_zero. reflexivity.
     + destruct (Z.ltb_spec 0 amt); [discriminate|lia].
 Qed.
 
-(** The token of [d] went from [f] to [to]; nothing else happened. *)
-Lemma moved_tok s d to d' :
-  tok (with_toks (with_toks s (put (toks s) d [])) (put (put (toks s) d []) d [(to, 1)])) d' =
-  if N.eqb d' d then [(to, 1)] else tok s d'.
+Lemma bank_add_spec s to d :
+  tok s d = [] ->
+  (forall d', tok (bank_add s to d 1) d' = if N.eqb d' d then [(to, 1)] else tok s d') /\
+  frame s (bank_add s to d 1) /\ qrecs (bank_add s to d 1) = qrecs s.
 Proof.
-  unfold tok at 1. cbn [toks with_toks]. rewrite !get_put.
-  destruct (N.eqb d' d); reflexivity.
+  intros Ht. unfold bank_add. split; [|split; [apply frame_with_toks|reflexivity]].
+  intros d'. rewrite tok_put, Ht. cbn [bal_of find]. rewrite set_bal_nil by discriminate. reflexivity.
 Qed.
 
-(** [sent P s s' to]: every scope token either stayed, or went from some holder [f] with [P f] to [to]. *)
-Definition sent (P : addr -> Prop) (s s' : state) (to : addr) : Prop :=
-  same_but_toks s s' /\
-  forall d, tok s' d = tok s d \/ (exists f, P f /\ tok s d = [(f, 1)] /\ tok s' d = [(to, 1)]).
+Definition denoms (c : list (sid * Z)) : list sid := map fst c.
 
-Lemma sent_refl P s to : sent P s s to.
-Proof. split; [apply same_but_toks_refl|]. intros d. left. reflexivity. Qed.
-
-Lemma sent_trans P a b c to : sent P a b to -> sent P b c to -> sent P a c to.
+Lemma sub_coins_spec from : forall coins s s0,
+  Wk s -> (forall e, In e coins -> 0 < snd e) -> sub_coins s from coins = Some s0 ->
+  frame s s0 /\ qrecs s0 = qrecs s /\ NoDup (denoms coins) /\
+  (forall e, In e coins -> tok s (fst e) = [(from, 1)] /\ snd e = 1) /\
+  (forall d, tok s0 d = if mem d (denoms coins) then [] else tok s d) /\ Wk s0.
 Proof.
-  intros (F1 & H1) (F2 & H2). split; [eapply same_but_toks_trans; eassumption|].
-  intros d. destruct (H1 d) as [E1|(f1 & P1 & A1 & B1)]; destruct (H2 d) as [E2|(f2 & P2 & A2 & B2)].
-  - left. congruence.
-  - right. exists f2. rewrite <- E1. auto.
-  - right. exists f1. rewrite E2. auto.
-  - right. exists f1. auto.
+  induction coins as [|[d amt] r IH]; intros s s0 HW Hpos; cbn [sub_coins].
+  - intros [= <-]. split; [apply frame_refl|]. split; [reflexivity|]. split; [constructor|].
+    split; [intros e []|]. split; [intros d; reflexivity|exact HW].
+  - destruct (bank_sub s from d amt) as [s1|] eqn:E; [|discriminate]. intros H.
+    assert (Hamt : 0 < amt) by (apply (Hpos (d, amt)); left; reflexivity).
+    destruct (bank_sub_spec _ _ _ _ _ HW Hamt E) as (Ht & Hone & Ht1 & F1 & Q1). subst amt.
+    assert (HW1 : Wk s1).
+    { intros d'. rewrite Ht1. destruct (N.eqb d' d); [left; reflexivity|apply HW]. }
+    destruct (IH s1 s0 HW1 (fun e He => Hpos e (or_intror He)) H) as (F2 & Q2 & ND & Hall & Ht0 & HW0).
+    split; [eapply frame_trans; eassumption|]. split; [congruence|].
+    assert (Hnd : ~ In d (denoms r)).
+    { intros Hin. apply in_map_iff in Hin. destruct Hin as ([d2 a2] & Hd2 & Hin). cbn in Hd2. subst d2.
+      destruct (Hall _ Hin) as (Hx & _). cbn [fst] in Hx. rewrite Ht1, N.eqb_refl in Hx. discriminate. }
+    split; [constructor; assumption|]. split; [|split; [|exact HW0]].
+    + intros e [<-|He]; [cbn [fst snd]; split; [exact Ht|reflexivity]|].
+      destruct (Hall e He) as (Hx & Hy). split; [|exact Hy].
+      rewrite Ht1 in Hx. destruct (N.eqb (fst e) d); [discriminate|exact Hx].
+    + intros d'. rewrite Ht0, Ht1. unfold denoms. cbn [map fst]. rewrite mem_cons.
+      destruct (N.eqb d' d); cbn [orb]; [destruct (mem d' (map fst r)); reflexivity|reflexivity].
 Qed.
 
-Lemma sent_bankinv P s s' to : BankInv s -> sent P s s' to -> BankInv s'.
+Lemma add_coins_spec to : forall coins s,
+  NoDup (denoms coins) -> (forall e, In e coins -> snd e = 1) -> (forall e, In e coins -> tok s (fst e) = []) ->
+  frame s (add_coins s to coins) /\ qrecs (add_coins s to coins) = qrecs s /\
+  (forall d, tok (add_coins s to coins) d = if mem d (denoms coins) then [(to, 1)] else tok s d).
 Proof.
-  intros HB ((_ & _ & Hsup & _) & H) d. rewrite (sup_same _ _ d Hsup).
-  destruct (H d) as [E|(f & _ & A & B)].
-  - rewrite E. apply HB.
-  - right. destruct (HB d) as [(_ & Ht)|(Hs & _)]; [congruence|]. split; [exact Hs|]. exists to. exact B.
-Qed.
-
-Lemma sent_tokscope P s s' to : TokScope s -> sent P s s' to -> TokScope s'.
-Proof.
-  intros HT ((Hsc & _) & H) d Hne. rewrite (scope_of_same _ _ d Hsc). apply HT.
-  destruct (H d) as [E|(f & _ & A & _)]; congruence.
-Qed.
-
-Lemma move_sent (P : addr -> Prop) s from to d amt s' :
-  BankInv s -> 0 < amt -> P from -> move s from to d amt = Some s' -> sent P s s' to.
-Proof.
-  intros HB Hamt HP H. destruct (move_inv _ _ _ _ _ _ HB Hamt H) as (Ht & _ & ->).
-  split; [repeat split|].
-  intros d'. rewrite moved_tok. destruct (N.eqb_spec d' d) as [->|]; [|left; reflexivity].
-  right. exists from. auto.
-Qed.
-
-Lemma move_all_sent (P : addr -> Prop) from to ds : forall s s',
-  BankInv s -> P from -> move_all s from to ds = Some s' -> sent P s s' to.
-Proof.
-  induction ds as [|d r IH]; intros s s' HB HP; cbn [move_all].
-  - intros [= <-]. apply sent_refl.
-  - destruct (move s from to d 1) as [s1|] eqn:E; [|discriminate]. intros H.
-    assert (S1 : sent P s s1 to) by (apply (move_sent P s from to d 1 s1 HB ltac:(lia) HP E)).
-    eapply sent_trans; [exact S1|]. apply IH; [eapply sent_bankinv; eassumption|exact HP|exact H].
+  induction coins as [|[d amt] r IH]; intros s ND Hone Hnil; cbn [add_coins].
+  - split; [apply frame_refl|]. split; [reflexivity|]. intros d. reflexivity.
+  - assert (amt = 1) by (apply (Hone (d, amt)); left; reflexivity). subst amt.
+    destruct (bank_add_spec s to d (Hnil (d, 1) (or_introl eq_refl))) as (Ht1 & F1 & Q1).
+    inversion ND as [|x l Hnd ND']; subst.
+    destruct (IH (bank_add s to d 1) ND' (fun e He => Hone e (or_intror He))) as (F2 & Q2 & Ht2).
+    { intros e He. rewrite Ht1. destruct (N.eqb_spec (fst e) d) as [Heq|_]; [|apply Hnil; right; exact He].
+      exfalso. apply Hnd. rewrite <- Heq. apply in_map. exact He. }
+    split; [exact (frame_trans _ _ _ F1 F2)|]. split; [rewrite Q2; exact Q1|].
+    intros d'. rewrite Ht2, Ht1. unfold denoms in *. cbn [map fst]. rewrite mem_cons.
+    destruct (N.eqb_spec d' d) as [->|_]; cbn [orb]; [|reflexivity].
+    destruct (mem d (map fst r)) eqn:Em; [|reflexivity]. apply mem_In in Em. contradiction.
 Qed.
 
 (** ** The send restriction *)
@@ -176,11 +245,292 @@ Proof.
   - right. apply any_in_spec. exact H.
 Qed.
 
-(** ** Signer checks *)
-Lemma find_grantee_spec s granter grantees k g :
-  find_grantee s granter grantees k = Some g -> In g grantees /\ authz s granter g k = true.
-Proof. unfold find_grantee. intros H. apply find_some in H. exact H. Qed.
+Definition dest (s : state) (qbyp : bool) (from to : addr) : addr := if qbyp then to else qdest s from to.
 
+Lemma apply_restrictions_spec s from to coins agents qbyp s1 to' :
+  apply_restrictions s from to coins agents qbyp = Some (s1, to') ->
+  restrict (markers s) from to agents = true /\ mem from (sanctioned s) = false /\
+  to' = dest s qbyp from to /\ frame s s1 /\ toks s1 = toks s /\
+  (qrecs s1 = qrecs s \/ (qbyp = false /\ to' = QHOLD /\ qrecs s1 = add_rec (qrecs s) to from coins)).
+Proof.
+  unfold apply_restrictions, dest, qdest.
+  destruct (restrict (markers s) from to agents); [|discriminate]. cbn [negb].
+  destruct (mem from (sanctioned s)); [discriminate|].
+  destruct qbyp; cbn [orb].
+  - intros [= <- <-]. repeat split. left. reflexivity.
+  - destruct (quarantines s from to); cbn [negb].
+    + intros [= <- <-]. split; [reflexivity|]. split; [reflexivity|]. split; [reflexivity|].
+      split; [apply frame_with_qrecs|]. split; [reflexivity|]. right. auto.
+    + intros [= <- <-]. repeat split. left. reflexivity.
+Qed.
+
+Lemma tok_toks s s' d : toks s' = toks s -> tok s' d = tok s d.
+Proof. intros H. unfold tok. rewrite H. reflexivity. Qed.
+
+Lemma coins_valid_spec coins :
+  coins_valid coins = true -> (forall e, In e coins -> 0 < snd e) /\ NoDup (denoms coins).
+Proof.
+  unfold coins_valid. intros H. apply andb_prop in H. destruct H as (H1 & H2). split.
+  - intros e He. rewrite forallb_forall in H1. specialize (H1 e He). apply Z.ltb_lt. exact H1.
+  - apply has_dup_false. apply negb_true_iff. exact H2.
+Qed.
+
+(** SendCoins under the weak invariant: every listed denom was held as one unit by the sender and
+    is afterwards held as one unit by the (possibly redirected) receiver; nothing else moved. *)
+Lemma send_spec s from to coins agents qbyp s' :
+  Wk s -> send s from to coins agents qbyp = Some s' ->
+  restrict (markers s) from to agents = true /\ mem from (sanctioned s) = false /\ frame s s' /\
+  (forall e, In e coins -> tok s (fst e) = [(from, 1)]) /\
+  (forall d, tok s' d = if mem d (denoms coins) then [(dest s qbyp from to, 1)] else tok s d) /\
+  (qrecs s' = qrecs s \/
+   (qbyp = false /\ dest s qbyp from to = QHOLD /\ qrecs s' = add_rec (qrecs s) to from coins)).
+Proof.
+  intros HW. unfold send. destruct (coins_valid coins) eqn:Ev; [|discriminate]. cbn [negb].
+  destruct (coins_valid_spec _ Ev) as (Hpos & ND).
+  destruct (sub_coins s from coins) as [s0|] eqn:Es; [|discriminate].
+  destruct (sub_coins_spec _ _ _ _ HW Hpos Es) as (F0 & Q0 & _ & Hall & Ht0 & HW0).
+  destruct (apply_restrictions s0 from to coins agents qbyp) as [[s1 to']|] eqn:Ea; [|discriminate].
+  intros [= <-].
+  destruct (apply_restrictions_spec _ _ _ _ _ _ _ _ Ea) as (Hr & Hs & Hto & F1 & T1 & Q1).
+  assert (Hd : dest s0 qbyp from to = dest s qbyp from to).
+  { unfold dest. destruct qbyp; [reflexivity|apply frame_qdest; exact F0]. }
+  rewrite Hd in Hto. subst to'.
+  destruct (add_coins_spec (dest s qbyp from to) coins s1 ND (fun e He => proj2 (Hall e He))) as (F2 & Q2 & Ht2).
+  { intros e He. rewrite (tok_toks _ _ _ T1), Ht0.
+    assert (Hm : mem (fst e) (denoms coins) = true) by (apply mem_In; apply in_map; exact He).
+    rewrite Hm. reflexivity. }
+  split; [rewrite <- (frame_markers _ _ F0); exact Hr|].
+  split; [rewrite <- (frame_sanctioned _ _ F0); exact Hs|].
+  split; [eapply frame_trans; [exact F0|eapply frame_trans; eassumption]|].
+  split; [intros e He; apply (Hall e He)|]. split.
+  - intros d. rewrite Ht2, (tok_toks _ _ _ T1), Ht0. destruct (mem d (denoms coins)); reflexivity.
+  - rewrite Q2. destruct Q1 as [Q1|(Hq & Hh & Q1)]; [left; congruence|].
+    right. split; [exact Hq|]. split; [exact Hh|]. rewrite Q1, Q0. reflexivity.
+Qed.
+
+Lemma denoms_ones ds : denoms (ones ds) = ds.
+Proof. unfold denoms, ones. rewrite map_map. cbn. apply map_id. Qed.
+
+Lemma in_ones e ds : In e (ones ds) -> In (fst e) ds /\ snd e = 1.
+Proof.
+  unfold ones. intros H. apply in_map_iff in H. destruct H as (d & <- & Hd). split; [exact Hd|reflexivity].
+Qed.
+
+(** ** The authz store threaded through one message *)
+Lemma kind_eqb_eq a b : kind_eqb a b = true <-> a = b.
+Proof. destruct a, b; cbn; split; congruence. Qed.
+
+Lemma kind_eqb_refl a : kind_eqb a a = true.
+Proof. destruct a; reflexivity. Qed.
+
+(** Acceptable for the rest of this message: accepted before (cache) or usable in the store. *)
+Definition acceptable (t : Z) (a : actx) (x y : addr) (k : kind) : bool :=
+  cache_has (a_cache a) x y k || usable t (a_grants a) x y k.
+Definition le (t : Z) (a' a : actx) : Prop :=
+  forall x y k, acceptable t a' x y k = true -> acceptable t a x y k = true.
+
+Lemma le_refl t a : le t a a.
+Proof. intros x y k H. exact H. Qed.
+Lemma le_trans t a b c : le t a b -> le t b c -> le t a c.
+Proof. intros H1 H2 x y k H. apply H2. apply H1. exact H. Qed.
+
+Lemma acceptable_actx0 s x y k : acceptable (now s) (actx0 s) x y k = has_grant s x y k.
+Proof. reflexivity. Qed.
+
+Lemma g_is_key x y k x' y' k' g :
+  g_is x y k g = true -> g_is x' y' k' g = true -> x = x' /\ y = y' /\ k = k'.
+Proof.
+  unfold g_is. intros H1 H2.
+  apply andb_prop in H1. destruct H1 as (H1 & K1). apply andb_prop in H1. destruct H1 as (X1 & Y1).
+  apply andb_prop in H2. destruct H2 as (H2 & K2). apply andb_prop in H2. destruct H2 as (X2 & Y2).
+  apply N.eqb_eq in X1, Y1, X2, Y2. apply kind_eqb_eq in K1, K2. repeat split; congruence.
+Qed.
+
+(** Replacing or removing the authorization under one key does not change the others. *)
+Lemma lookup_st_update_other x y k new x' y' k' : forall st,
+  (x, y, k) <> (x', y', k') ->
+  (forall g', new = Some g' -> g_is x y k g' = true) ->
+  lookup (st_update st x y k new) x' y' k' = lookup st x' y' k'.
+Proof.
+  intros st Hne Hnew. unfold lookup. induction st as [|g r IH]; cbn [st_update find]; [reflexivity|].
+  destruct (g_is x y k g) eqn:Eg.
+  - assert (Hg : g_is x' y' k' g = false).
+    { destruct (g_is x' y' k' g) eqn:E2; [|reflexivity]. exfalso. apply Hne.
+      destruct (g_is_key _ _ _ _ _ _ _ Eg E2) as (-> & -> & ->). reflexivity. }
+    rewrite Hg. destruct new as [g'|]; [|reflexivity]. cbn [find].
+    assert (Hg' : g_is x' y' k' g' = false).
+    { destruct (g_is x' y' k' g') eqn:E2; [|reflexivity]. exfalso. apply Hne.
+      destruct (g_is_key _ _ _ _ _ _ _ (Hnew g' eq_refl) E2) as (-> & -> & ->). reflexivity. }
+    rewrite Hg'. reflexivity.
+  - cbn [find]. destruct (g_is x' y' k' g); [reflexivity|exact IH].
+Qed.
+
+Lemma cache_has_cons c x y k x' y' k' :
+  cache_has ((x, y, k) :: c) x' y' k' = (N.eqb x x' && N.eqb y y' && kind_eqb k k') || cache_has c x' y' k'.
+Proof. reflexivity. Qed.
+
+Lemma key_dec (x y : addr) (k : kind) x' y' k' : {(x, y, k) = (x', y', k')} + {(x, y, k) <> (x', y', k')}.
+Proof.
+  destruct (N.eq_dec x x') as [->|Hx]; [|right; congruence].
+  destruct (N.eq_dec y y') as [->|Hy]; [|right; congruence].
+  destruct k, k'; try (left; reflexivity); right; congruence.
+Qed.
+
+(** After an accepted probe the key is in the cache; other keys are as before. *)
+Lemma cached_le t a st x y k :
+  usable t (a_grants a) x y k = true ->
+  (forall x' y' k', (x, y, k) <> (x', y', k') -> lookup st x' y' k' = lookup (a_grants a) x' y' k') ->
+  le t (cached a st x y k) a.
+Proof.
+  intros Hu Hoth x' y' k'. unfold acceptable, cached. cbn [a_cache a_grants]. rewrite cache_has_cons.
+  destruct (key_dec x y k x' y' k') as [Heq|Hne].
+  - injection Heq as <- <- <-. intros _. rewrite Hu. apply orb_true_r.
+  - assert (Hk : N.eqb x x' && N.eqb y y' && kind_eqb k k' = false).
+    { destruct (N.eqb_spec x x') as [->|]; [|reflexivity]. destruct (N.eqb_spec y y') as [->|]; [|reflexivity].
+      cbn [andb]. destruct (kind_eqb k k') eqn:Ek; [|reflexivity]. apply kind_eqb_eq in Ek. subst. congruence. }
+    rewrite Hk. cbn [orb]. unfold usable. rewrite (Hoth _ _ _ Hne). intros H. exact H.
+Qed.
+
+Lemma lookup_g_is st x y k g : lookup st x y k = Some g -> g_is x y k g = true.
+Proof. unfold lookup. intros H. apply find_some in H. apply H. Qed.
+
+Lemma lookup1_spec t a x y k a' :
+  lookup1 t a x y k = LYes a' -> acceptable t a x y k = true /\ le t a' a.
+Proof.
+  unfold lookup1, acceptable. destruct (cache_has (a_cache a) x y k) eqn:Ec.
+  - intros [= <-]. split; [reflexivity|apply le_refl].
+  - cbn [orb]. unfold usable, live. destruct (lookup (a_grants a) x y k) as [g|] eqn:El; [|discriminate].
+    destruct (expired t g) eqn:Ee; [discriminate|]. cbn [negb andb].
+    destruct (g_left g) as [n|] eqn:En.
+    + destruct (Z.leb_spec n 0) as [|Hn]; [discriminate|].
+      assert (Hpos : (0 <? n) = true) by (apply Z.ltb_lt; exact Hn).
+      assert (Hu : usable t (a_grants a) x y k = true).
+      { unfold usable, live. rewrite El, Ee, En. exact Hpos. }
+      destruct (n =? 1).
+      * intros [= <-]. split; [exact Hpos|]. apply cached_le; [exact Hu|].
+        intros x' y' k' Hne. apply lookup_st_update_other; [exact Hne|discriminate].
+      * destruct (match g_exp g with Some e => e <=? t | None => false end); [discriminate|].
+        intros [= <-]. split; [exact Hpos|]. apply cached_le; [exact Hu|].
+        intros x' y' k' Hne. apply lookup_st_update_other; [exact Hne|].
+        intros g' [= <-]. apply lookup_g_is in El. exact El.
+    + intros [= <-]. split; [reflexivity|]. apply cached_le.
+      * unfold usable, live. rewrite El, Ee, En. reflexivity.
+      * intros. reflexivity.
+Qed.
+
+Lemma try_kinds_spec t x y : forall ks a a',
+  try_kinds t a x y ks = LYes a' ->
+  (exists k', In k' ks /\ acceptable t a x y k' = true) /\ le t a' a.
+Proof.
+  induction ks as [|k r IH]; intros a a'; cbn [try_kinds]; [discriminate|].
+  destruct (lookup1 t a x y k) as [| |a1] eqn:E; [discriminate| |].
+  - intros H. destruct (IH _ _ H) as ((k' & Hk & Ha) & Hle). split; [|exact Hle].
+    exists k'. split; [right; exact Hk|exact Ha].
+  - intros [= <-]. destruct (lookup1_spec _ _ _ _ _ _ E) as (Ha & Hle). split; [|exact Hle].
+    exists k. split; [left; reflexivity|exact Ha].
+Qed.
+
+Lemma find_grantee_spec t x k : forall gs a g a',
+  find_grantee t a x gs k = Some (Some g, a') ->
+  In g gs /\ (exists k', In k' (kind_urls k) /\ acceptable t a x g k' = true) /\ le t a' a.
+Proof.
+  induction gs as [|y r IH]; intros a g a'; cbn [find_grantee]; [discriminate|].
+  destruct (try_kinds t a x y (kind_urls k)) as [| |a1] eqn:E; [discriminate| |].
+  - intros H. destruct (IH _ _ _ H) as (Hin & Hk & Hle). split; [right; exact Hin|]. split; assumption.
+  - intros [= <- <-]. destruct (try_kinds_spec _ _ _ _ _ _ E) as (Hk & Hle).
+    split; [left; reflexivity|]. split; assumption.
+Qed.
+
+Lemma find_grantee_none t x k : forall gs a a',
+  find_grantee t a x gs k = Some (None, a') -> a' = a.
+Proof.
+  induction gs as [|y r IH]; intros a a'; cbn [find_grantee]; [intros [= <-]; reflexivity|].
+  destruct (try_kinds t a x y (kind_urls k)); [discriminate| |discriminate]. apply IH.
+Qed.
+
+Lemma find_grantee_le t x k gs a o a' :
+  find_grantee t a x gs k = Some (o, a') -> le t a' a.
+Proof.
+  destruct o as [g|]; intros H.
+  - apply (find_grantee_spec _ _ _ _ _ _ _ H).
+  - rewrite (find_grantee_none _ _ _ _ _ _ H). apply le_refl.
+Qed.
+
+(** Every signer check only ever shrinks what is acceptable. *)
+Lemma all_required_signed_le t sg k : forall req a l a',
+  all_required_signed t req sg k a = Some (l, a') -> le t a' a.
+Proof.
+  induction req as [|o r IH]; intros a l a'; cbn [all_required_signed]; [intros [= _ <-]; apply le_refl|].
+  destruct (mem o sg).
+  - destruct (all_required_signed t r sg k a) as [[l2 a2]|] eqn:E; [|discriminate].
+    intros [= _ <-]. eapply IH. exact E.
+  - destruct (find_grantee t a o sg k) as [[[x|] a1]|] eqn:Ef; try discriminate.
+    destruct (all_required_signed t r sg k a1) as [[l2 a2]|] eqn:E; [|discriminate].
+    intros [= _ <-]. eapply le_trans; [eapply IH; exact E|eapply find_grantee_le; exact Ef].
+Qed.
+
+Lemma assoc_authz_le t sg k : forall ps a l a',
+  assoc_authz t sg k ps a = Some (l, a') -> le t a' a.
+Proof.
+  induction ps as [|d r IH]; intros a l a'; cbn [assoc_authz]; [intros [= _ <-]; apply le_refl|].
+  destruct (negb (pd_opt d) && negb (has_signer d)).
+  - destruct (find_grantee t a (pd_addr d) sg k) as [[o a1]|] eqn:Ef; [|discriminate].
+    assert (Hle1 : le t a1 a) by (eapply find_grantee_le; exact Ef).
+    destruct o as [g|].
+    + destruct (assoc_authz t sg k r a1) as [[l2 a2]|] eqn:E; [|discriminate].
+      intros [= _ <-]. eapply le_trans; [eapply IH; exact E|exact Hle1].
+    + destruct (assoc_authz t sg k r a1) as [[l2 a2]|] eqn:E; [|discriminate].
+      intros [= _ <-]. eapply le_trans; [eapply IH; exact E|exact Hle1].
+  - destruct (assoc_authz t sg k r a) as [[l2 a2]|] eqn:E; [|discriminate].
+    intros [= _ <-]. eapply IH. exact E.
+Qed.
+
+Lemma role_authz_le t sg k r : forall ps a o a',
+  role_authz t sg k r ps a = Some (o, a') -> le t a' a.
+Proof.
+  induction ps as [|d rest IH]; intros a o a'; cbn [role_authz]; [intros [= _ <-]; apply le_refl|].
+  destruct (usable_as r d && negb (has_signer d)).
+  - destruct (find_grantee t a (pd_addr d) sg k) as [[og a1]|] eqn:Ef; [|discriminate].
+    assert (Hle1 : le t a1 a) by (eapply find_grantee_le; exact Ef).
+    destruct og as [g|]; [intros [= _ <-]; exact Hle1|].
+    destruct (role_authz t sg k r rest a1) as [[[l|] a2]|] eqn:E; [| |discriminate];
+      intros [= _ <-]; (eapply le_trans; [eapply IH; exact E|exact Hle1]).
+  - destruct (role_authz t sg k r rest a) as [[[l|] a2]|] eqn:E; [| |discriminate];
+      intros [= _ <-]; (eapply IH; exact E).
+Qed.
+
+Lemma assoc_authz_roles_le t sg k : forall missing ps bad a ps' bad' a',
+  assoc_authz_roles t sg k missing ps bad a = Some (ps', bad', a') -> le t a' a.
+Proof.
+  induction missing as [|r rest IH]; intros ps bad a ps' bad' a'; cbn [assoc_authz_roles];
+    [intros [= _ _ <-]; apply le_refl|].
+  destruct (role_authz t sg k r ps a) as [[[l|] a1]|] eqn:E; [| |discriminate]; intros H;
+    (eapply le_trans; [eapply IH; exact H|eapply role_authz_le; exact E]).
+Qed.
+
+Lemma parties_signed_le t parties roles sg k a l a' :
+  parties_signed t parties roles sg k a = Some (l, a') -> le t a' a.
+Proof.
+  unfold parties_signed.
+  match goal with |- context [assoc_authz t sg k ?p a] => destruct (assoc_authz t sg k p a) as [[p2 a1]|] eqn:E1 end;
+    [|discriminate].
+  destruct (existsb _ p2); [discriminate|].
+  destruct (assoc_roles roles p2) as [p3 missing].
+  destruct (assoc_authz_roles t sg k missing p3 false a1) as [[[p4 bad] a2]|] eqn:E2; [|discriminate].
+  destruct bad; [discriminate|]. intros [= _ <-].
+  eapply le_trans; [eapply assoc_authz_roles_le; exact E2|eapply assoc_authz_le; exact E1].
+Qed.
+
+Lemma existing_signed_le s e roles sg k a l a' :
+  existing_signed s e roles sg k a = Some (l, a') -> le (now s) a' a.
+Proof.
+  unfold existing_signed. destruct (negb (sc_rollup e)); [apply all_required_signed_le|].
+  destruct roles as [rs|]; [|apply all_required_signed_le].
+  destruct (parties_signed (now s) (sc_parties e) rs sg k a) as [[pds a1]|] eqn:E; [|discriminate].
+  intros [= _ <-]. eapply parties_signed_le. exact E.
+Qed.
+
+(** ** Signer checks *)
 Lemma effective_signers_incl s sg g : In g (effective_signers s sg) -> In g sg.
 Proof.
   unfold effective_signers. destruct sg as [|a r]; [intros []|].
@@ -199,45 +549,77 @@ Proof.
   rewrite N.eqb_eq. split; [intros ->; reflexivity|intros [= ->]; reflexivity].
 Qed.
 
-Lemma authz_plain s a g k : k <> KAddData -> authz s a g k = has_grant s a g k.
-Proof. intros H. unfold authz. destruct k; cbn [kind_urls existsb]; try apply orb_false_r. contradiction. Qed.
+(** A grant acceptable at the start of the message for one of the types this message accepts. *)
+Definition granted (t : Z) (a : actx) (e g : addr) (k : kind) : Prop :=
+  exists k', In k' (kind_urls k) /\ acceptable t a e g k' = true.
+
+Lemma granted_le t a' a e g k : le t a' a -> granted t a' e g k -> granted t a e g k.
+Proof. intros Hle (k' & Hk & Ha). exists k'. split; [exact Hk|apply Hle; exact Ha]. Qed.
 
 (** Every current holder that is not the proposed one signed (effectively), is a marker, or
     granted authz to an effective signer. *)
-Lemma vo_check_spec s proposed eff k : forall existing used,
-  vo_check s existing proposed eff k = Some used ->
+Lemma vo_check_spec s proposed eff k : forall existing a used a',
+  vo_check s existing proposed eff k a = Some (used, a') ->
+  le (now s) a' a /\
   forall e, In e existing -> proposed <> Some e ->
-  In e eff \/ is_marker s e = true \/ (exists g, In g eff /\ authz s e g k = true).
+  In e eff \/ is_marker s e = true \/ (exists g, In g eff /\ granted (now s) a e g k).
 Proof.
-  induction existing as [|x r IH]; intros used H e Hin Hne; [destruct Hin|].
-  cbn [vo_check] in H.
-  assert (Hr : forall u, vo_check s r proposed eff k = Some u -> In e r ->
-               In e eff \/ is_marker s e = true \/ (exists g, In g eff /\ authz s e g k = true)).
-  { intros u Hu Hi. eapply IH; eassumption. }
-  destruct (opt_is proposed x) eqn:Eo.
-  - apply opt_is_true in Eo. destruct Hin as [->|Hin]; [contradiction|]. eapply Hr; eassumption.
-  - destruct (mem x eff) eqn:Em.
-    + destruct (vo_check s r proposed eff k) as [u|] eqn:Eu; [|discriminate].
-      destruct Hin as [->|Hin]; [left; apply mem_In; exact Em|eapply Hr; [reflexivity|exact Hin]].
-    + destruct (is_marker s x) eqn:Ek.
-      * destruct Hin as [->|Hin]; [right; left; exact Ek|eapply Hr; eassumption].
-      * destruct (find_grantee s x eff k) as [g|] eqn:Eg; [|discriminate].
-        destruct (vo_check s r proposed eff k) as [u|] eqn:Eu; [|discriminate].
-        destruct Hin as [->|Hin]; [|eapply Hr; [reflexivity|exact Hin]].
-        right. right. exists g. apply find_grantee_spec in Eg. exact Eg.
+  induction existing as [|x r IH]; intros a used a' H; cbn [vo_check] in H.
+  - injection H as _ <-. split; [apply le_refl|intros e []].
+  - destruct (opt_is proposed x) eqn:Eo.
+    + destruct (IH _ _ _ H) as (Hle & Hr). split; [exact Hle|].
+      intros e [<-|Hin] Hne; [apply opt_is_true in Eo; contradiction|apply Hr; assumption].
+    + destruct (mem x eff) eqn:Em.
+      * destruct (vo_check s r proposed eff k a) as [[l a1]|] eqn:Eu; [|discriminate].
+        injection H as _ <-. destruct (IH _ _ _ Eu) as (Hle & Hr). split; [exact Hle|].
+        intros e [<-|Hin] Hne; [left; apply mem_In; exact Em|apply Hr; assumption].
+      * destruct (is_marker s x) eqn:Ek.
+        -- destruct (IH _ _ _ H) as (Hle & Hr). split; [exact Hle|].
+           intros e [<-|Hin] Hne; [right; left; exact Ek|apply Hr; assumption].
+        -- destruct (find_grantee (now s) a x eff k) as [[[g|] a1]|] eqn:Eg; try discriminate.
+           destruct (vo_check s r proposed eff k a1) as [[l a2]|] eqn:Eu; [|discriminate].
+           injection H as _ <-. destruct (IH _ _ _ Eu) as (Hle & Hr).
+           destruct (find_grantee_spec _ _ _ _ _ _ _ Eg) as (Hg & Hgr & Hle1).
+           split; [eapply le_trans; eassumption|].
+           intros e [<-|Hin] Hne.
+           ++ right. right. exists g. split; [exact Hg|exact Hgr].
+           ++ destruct (Hr e Hin Hne) as [H1|[H2|(g' & Hg' & Hgr')]]; [left; exact H1|right; left; exact H2|].
+              right. right. exists g'. split; [exact Hg'|eapply granted_le; eassumption].
 Qed.
 
 (** What an accepted ValidateScopeValueOwnersSigners gives about a holder [e] that changes. *)
-Lemma vo_signers_spec s existing proposed sg k agents used e :
-  vo_signers s existing proposed sg k = Some (agents, used) ->
+Lemma vo_signers_spec s existing proposed sg k a agents used a' e :
+  vo_signers s existing proposed sg k a = Some (agents, used, a') ->
   In e existing -> proposed <> Some e ->
   agents = effective_signers s sg /\
-  (In e agents \/ is_marker s e = true \/ (exists g, In g agents /\ authz s e g k = true)).
+  (In e agents \/ is_marker s e = true \/ (exists g, In g agents /\ granted (now s) a e g k)).
 Proof.
   unfold vo_signers. intros H Hin Hne.
   destruct (match existing with [x] => opt_is proposed x | _ => false end) eqn:Eearly.
   - destruct existing as [|x [|y r]]; try discriminate.
     apply opt_is_true in Eearly. destruct Hin as [->|[]]. contradiction.
-  - destruct (vo_check s existing proposed (effective_signers s sg) k) as [u|] eqn:Eu; [|discriminate].
-    injection H as <- <-. split; [reflexivity|]. eapply vo_check_spec; eassumption.
+  - destruct (vo_check s existing proposed (effective_signers s sg) k a) as [[u a1]|] eqn:Eu; [|discriminate].
+    injection H as <- _ _. split; [reflexivity|]. eapply vo_check_spec; eassumption.
+Qed.
+
+(** When ValidateScopeValueOwnersSigners did not return early, the agents are the effective signers. *)
+Lemma vo_signers_agents s existing proposed sg k a agents used a' :
+  vo_signers s existing proposed sg k a = Some (agents, used, a') ->
+  (exists e, existing = [e] /\ proposed = Some e /\ agents = []) \/ agents = effective_signers s sg.
+Proof.
+  unfold vo_signers.
+  destruct (match existing with [x] => opt_is proposed x | _ => false end) eqn:Eearly.
+  - destruct existing as [|x [|y r]]; try discriminate. apply opt_is_true in Eearly.
+    intros [= <- _ _]. left. exists x. auto.
+  - destruct (vo_check s existing proposed (effective_signers s sg) k a) as [[u a1]|]; [|discriminate].
+    intros [= <- _ _]. right. reflexivity.
+Qed.
+
+(** For the four message types that move tokens only the type itself is accepted. *)
+Lemma granted_plain s e g k :
+  k <> KAddData -> granted (now s) (actx0 s) e g k -> has_grant s e g k = true.
+Proof.
+  intros Hk (k' & Hin & Ha). rewrite acceptable_actx0 in Ha.
+  destruct k; cbn [kind_urls] in Hin; try contradiction;
+    (destruct Hin as [<-|[]]; exact Ha).
 Qed.
